@@ -166,3 +166,80 @@ def cmds_of_term(t):
             out.extend(c)
         return tuple(out)
     return None
+
+
+def subst_copies(ctx, f, node, expr):
+    """A copy of `expr` in which every local name that is (uniquely, at `node`) a plain copy of a variable or attribute chain is
+    replaced by what it copies (`payload = msg.data; if payload:` reads as `if msg.data:`), provided the copied location has
+    the same reaching definitions at the copy and at `node` (nothing wrote it in between)."""
+    import copy as _copy
+    df = ctx.df(f)
+    expr = _copy.deepcopy(expr)
+
+    def one(name):
+        d = df.unique_def(node, name)
+        if d is None or d.kind != "assign" or d.path or d.value is None:
+            return None
+        v = unawait(d.value)
+        k = varkey(v)
+        if not k:
+            return None
+        if df.reaching(node, k) != df.reaching_out(d.node, k):
+            return None
+        base = k.split(".")[0]
+        if df.reaching(node, base) != df.reaching_out(d.node, base):
+            return None
+        return v
+
+    class Tr(ast.NodeTransformer):
+        def visit_Name(self, n):
+            if isinstance(n.ctx, ast.Load):
+                for _ in range(3):
+                    v = one(n.id) if isinstance(n, ast.Name) else None
+                    if v is None:
+                        break
+                    n = _copy.deepcopy(v)
+            return n
+    return Tr().visit(expr)
+
+
+def store_level(ctx, f, node, expr, attr="_dict", depth=0):
+    """Nesting level of an expression inside the packet store's two-level dictionary: 0 = the outer dict (`self._dict`),
+    1 = an inner dict (`self._dict[local]`), 2 = a queue (`self._dict[local][remote]`); None when it cannot be told.
+    Follows subscripts, dict.get/setdefault/pop, local copies and `for k, v in d.items()` / `for v in d.values()` targets."""
+    if depth > 6 or expr is None:
+        return None
+    e = unawait(expr)
+    if isinstance(e, ast.Attribute) and e.attr == attr and isinstance(e.value, ast.Name) and f.params and e.value.id == f.params[0]:
+        return 0
+    if isinstance(e, ast.Subscript):
+        b = store_level(ctx, f, node, e.value, attr, depth + 1)
+        return None if b is None else b + 1
+    if isinstance(e, ast.Call) and isinstance(e.func, ast.Attribute) and e.func.attr in ("get", "setdefault", "pop") and e.args:
+        b = store_level(ctx, f, node, e.func.value, attr, depth + 1)
+        return None if b is None or b >= 2 else b + 1
+    if isinstance(e, ast.Name):
+        df = ctx.df(f)
+        ds = df.reaching(node, e.id) if node is not None else set()
+        levels = set()
+        for d in ds:
+            if d.kind == "assign" and not d.path and d.value is not None:
+                v = unawait(d.value)
+                if isinstance(v, ast.Assign):
+                    v = v.value
+                levels.add(store_level(ctx, f, d.node, v, attr, depth + 1))
+            elif d.kind in ("for", "iter") and d.value is not None:
+                it = unawait(d.value)
+                if isinstance(it, ast.Call) and isinstance(it.func, ast.Attribute) and it.func.attr in ("items", "values") and not it.args:
+                    b = store_level(ctx, f, d.node, it.func.value, attr, depth + 1)
+                    want = (1,) if it.func.attr == "items" else ()
+                    levels.add(b + 1 if b is not None and tuple(d.path) == want else (None if tuple(d.path) == want or b is None else -1))
+                else:
+                    levels.add(None)
+            else:
+                levels.add(None)
+        if len(levels) == 1:
+            lv = levels.pop()
+            return lv if lv is None or lv >= 0 else None
+        return None
+    return None
